@@ -346,6 +346,7 @@ func runCase(c *Case) (res Result) {
 		for _, g := range strings.Split(st, "\n\n") {
 			if strings.Contains(g, "main.runCase.func1") {
 				res.Site = siteOf(g)
+				res.Stack = truncate(g, 6000) // the stack of the goroutine that runs the case
 			}
 		}
 		return res
